@@ -871,6 +871,64 @@ pub fn castling_lab_positions(two_attackers: bool, mut f: impl FnMut(u64, &Pos))
     }
 }
 
+/// Promotion laboratory: a white pawn on the seventh rank of file f; each of the three squares in front of it
+/// (f-1, f, f+1 on the eighth rank) empty or holding a black rook, knight, bishop or queen; the black king on any
+/// square of the two last ranks; the white king far away or anywhere in the three ranks below the pawn within two
+/// files (pawn pinned on a diagonal by the piece it may capture, promotion with check, capture of a home rook whose
+/// right is intact - granted whenever king and rook stand at home). Every sane placement and its colour mirror.
+pub fn promotion_lab_positions(mut f: impl FnMut(u64, &Pos)) {
+    let mut i = 0u64;
+    const AHEAD: [u8; 5] = [b'.', b'r', b'n', b'b', b'q'];
+    for file in 0..8usize {
+        for a in 0..125usize {
+            let (l, m, r) = (AHEAD[a % 5], AHEAD[(a / 5) % 5], AHEAD[a / 25]);
+            if (file == 0 && l != b'.') || (file == 7 && r != b'.') {
+                continue;
+            }
+            let mut base = [b'.'; 64];
+            base[48 + file] = b'P';
+            if file > 0 {
+                base[56 + file - 1] = l;
+            }
+            base[56 + file] = m;
+            if file < 7 {
+                base[56 + file + 1] = r;
+            }
+            for bk in 48..64usize {
+                if base[bk] != b'.' {
+                    continue;
+                }
+                let mut wks: Vec<usize> = vec![if bk % 8 < 4 { 7 } else { 0 }];
+                for rk in 4..7usize {
+                    for df in -2i32..=2 {
+                        let ff = file as i32 + df;
+                        if (0..8).contains(&ff) {
+                            wks.push(rk * 8 + ff as usize);
+                        }
+                    }
+                }
+                for wk in wks {
+                    if base[wk] != b'.' || wk == bk {
+                        continue;
+                    }
+                    let mut b = base;
+                    b[bk] = b'k';
+                    b[wk] = b'K';
+                    let cr = [false, false, bk == 60 && b[63] == b'r', bk == 60 && b[56] == b'r'];
+                    let p = Pos { b, white: true, cr, ep: None };
+                    if !p.sane() {
+                        continue;
+                    }
+                    f(i, &p);
+                    i += 1;
+                    f(i, &p.mirror());
+                    i += 1;
+                }
+            }
+        }
+    }
+}
+
 /// All sane placements of K + X vs K for the given extra man, both sides to move
 pub fn kxk_positions(x: u8, mut f: impl FnMut(u64, &Pos)) {
     let mut i = 0u64;
@@ -907,7 +965,7 @@ impl Prop for PosWalk {
     }
 
     fn rule(&self) -> String {
-        let common = "Cases: proptest-generated walks (start = curated sane FEN or constructed random sane position with 2-32 men, castling rights and en-passant file FIDE-style or capturable; moves = picks with kind preferences capture/promotion/castle/ep/king/rook-home/double-push/check/undo resolved against the reference model's legal list; lengths 0-397) with the oracle evaluated at every position of the walk and at every legal successor of the final position (depth 1-2); about 1 walk in 250 is also observed through the real executable (C01: `rustybait perft 2 <fen> <moves>` divide against the model's divide; C02/C04/C11: `position fen … moves …` + `show` lines); at every position of a walk the successors that combine two rare features are judged as well (any capture of a home rook whose castling right is intact; every special move, king move and capture while an en-passant file is set); one constructed start in three carries other FEN counter fields than `0 1` (halfmove clock to 150, move number to 6000); every tier enumerates the en-passant laboratory (a pawn that has just made its double step, one or two capturers beside it, the capturing side's king anywhere within two squares of the three pawns, one enemy rook, bishop or queen anywhere - every sane placement, both colours) and the castling laboratory (king and rook(s) at home with the right(s), at most one own knight between them, one enemy queen, rook, bishop, knight or pawn anywhere - in the thorough tier a second enemy minor piece on ranks 2-4 -, both colours), each position with all its successors; thorough adds the exhaustive K+X v K tables. evaluations = positions compared. ";
+        let common = "Cases: proptest-generated walks (start = curated sane FEN or constructed random sane position with 2-32 men, castling rights and en-passant file FIDE-style or capturable; moves = picks with kind preferences capture/promotion/castle/ep/king/rook-home/double-push/check/undo resolved against the reference model's legal list; lengths 0-397) with the oracle evaluated at every position of the walk and at every legal successor of the final position (depth 1-2); about 1 walk in 250 is also observed through the real executable (C01: `rustybait perft 2 <fen> <moves>` divide against the model's divide; C02/C04/C11: `position fen … moves …` + `show` lines); at every position of a walk the successors that combine two rare features are judged as well (any capture of a home rook whose castling right is intact; every special move, king move and capture while an en-passant file is set); one constructed start in three carries other FEN counter fields than `0 1` (halfmove clock to 150, move number to 6000); every tier enumerates the en-passant laboratory (a pawn that has just made its double step, one or two capturers beside it, the capturing side's king anywhere within two squares of the three pawns, one enemy rook, bishop or queen anywhere - every sane placement, both colours) and the castling laboratory (king and rook(s) at home with the right(s), at most one own knight between them, one enemy queen, rook, bishop, knight or pawn anywhere - in the thorough tier a second enemy minor piece on ranks 2-4 -, both colours) and the promotion laboratory (a pawn on the seventh rank, each of the three squares in front of it empty or holding an enemy rook, knight, bishop or queen, the enemy king anywhere on the last two ranks - with the castling right whenever it stands at home beside a home rook -, the own king far away or within the three ranks below the pawn), each position with all its successors; thorough adds the exhaustive K+X v K tables. evaluations = positions compared. ";
         let nt = match self.which {
             Which::C01 => "Non-trivial position: in check, double check, has pseudo-legal moves that expose the own king (pins), en-passant capture legal, a castling right present, pawn one step from promotion, or at most 4 men; distinct by (placement, side, rights, ep).",
             Which::C02 => "Non-trivial case: a (position, move) pair where the move is castling, en passant, a promotion, moves from or captures on a rook home square, or records an en-passant file; distinct by position and move.",
@@ -1030,6 +1088,26 @@ impl Prop for PosWalk {
                 }
             });
             ev.class_n("castling_laboratory_positions", n);
+            if let Some((c, f)) = failed {
+                report(c, f);
+                return;
+            }
+        }
+        // the promotion laboratory
+        {
+            let mut failed: Option<(PosCase, Fail)> = None;
+            let mut n = 0u64;
+            promotion_lab_positions(|i, p| {
+                if failed.is_some() || !ctx.owns(i) {
+                    return;
+                }
+                n += 1;
+                let fen = p.fen6();
+                if let Err(fail) = self.run_fen(&fen, ev) {
+                    failed = Some((PosCase::Fen { fen }, fail));
+                }
+            });
+            ev.class_n("promotion_laboratory_positions", n);
             if let Some((c, f)) = failed {
                 report(c, f);
                 return;
